@@ -142,12 +142,20 @@ func (in *interp) block(ss []Stmt) {
 	for _, s := range ss {
 		switch x := s.(type) {
 		case Cond:
+			// capture groups are scoped to the conditional that defines them: an inner pattern with the
+			// same group names shadows the outer one only inside its own block
+			saved := in.caps
+			in.caps = make(map[string]string, len(saved)+2)
+			for k, v := range saved {
+				in.caps[k] = v
+			}
 			if in.truth(x.C) {
 				matched = true
 				in.block(x.Then)
 			} else if x.Else != nil {
 				in.block(x.Else)
 			}
+			in.caps = saved
 		case Otherwise:
 			if !matched {
 				matched = true
